@@ -78,6 +78,8 @@ type cframe struct {
 	Payload json.RawMessage
 }
 
+type sessionKey struct{}
+
 var opNameRe = regexp.MustCompile(`Op(\d+)`)
 
 // gate is a handler extension that rejects operations by a marker in the query text: "RejP" in
@@ -147,7 +149,7 @@ func Run(rc *core.RunCtx) {
 	if transportWS {
 		proto = "graphql-transport-ws"
 	}
-	initMode := t.Choose(5, "initmode") // 0 none 1 accept 2 accept+payload 3 reject 4 stall
+	initMode := t.Choose(6, "initmode") // 0 none 1 accept 2 accept+payload 3 reject 4 stall 5 accept with a context of its own
 	var seq atomic.Int64
 	var initAccepted atomic.Bool
 	var closeCalls atomic.Int32
@@ -178,6 +180,11 @@ func Run(rc *core.RunCtx) {
 			initAccepted.Store(true)
 			if initMode == 2 {
 				return ctx, &transport.InitPayload{"ack": "yes"}, nil
+			}
+			if initMode == 5 {
+				// a "session" context that does not descend from the one passed in (legal per the
+				// InitFunc signature): only gqlgen's own close can end the operations
+				return context.WithValue(context.Background(), sessionKey{}, "s"), nil, nil
 			}
 			return ctx, nil, nil
 		}
